@@ -256,10 +256,17 @@ CHECKS = [
              "conventions and equal Re(FFT) -+ Im(FFT), and HarmonicSmoothingOperator is the identity for sigma = 0 and the Gaussian "
              "kernel in harmonic space otherwise (self-adjoint, integral preserving).",
      "design_ref": "DESIGN.md 4/C09"},
+    {"property_id": "C34", "engine": "B", "category": "other", "technique": TECH_B + "; fork mode (every Lanczos breakdown decision is a path)",
+     "note": NOTE_B + " ONLY the Lanczos-tridiagonalisation part of the property is claimed (dimension 2, order = dimension). The stochastic log-determinant and both ELBO estimators end in LAPACK / ARPACK eigen-solvers (jnp.linalg.eigh, scipy eigsh) without a closed contract: not covered.",
+     "text": "Bounded symbolic verification of nifty.re.num.lanczos.lanczos_tridiag for ALL symmetric 2x2 matrices and start vectors: T is "
+             "symmetric tridiagonal, T[0,0] is the Rayleigh quotient of the normalised start vector, and on every path without "
+             "breakdown the basis is orthonormal, T = Q A Q^T, trace(T) = trace(A), det(T) = det(A), i.e. T has the spectrum of A.",
+     "design_ref": "DESIGN.md 4/C34"},
 ]
 
 ALL = [f"C{i:02d}" for i in range(1, 37)]
 REASONS = {
+    "C08": "the domain classes coerce every geometry parameter to float64 NumPy arrays in their constructors and compute k-lengths, bins and volumes with arange / searchsorted / bincount / unique on those arrays: no symbolic input survives construction, so a solver would only re-evaluate concrete numbers; the cache-identity and pickling half of the property is object identity of concrete runs, which is decided by executing, not by a solver (volume-weighted contractions on these domains are covered by C06, harmonic volume factors by C09)",
     "C27": "quantifies over end-to-end configurations of whole VI runs (sampling, CG, plotting, HDF5, pickling); nothing in it is an input a solver could make symbolic and the run itself cannot be encoded",
     "C28": "equality of two deep transcendental pipelines (ducc Hartley transforms on grids >= 4, cumulative sums of exp/log/sqrt, special functions) and an expectation over the whole pipeline: outside NRA+UF reach",
 }
